@@ -2,20 +2,31 @@ import Req.Driver.Proto
 import Req.Client.Retry
 import Req.Client.Attempt
 import Req.Client.Backoff
+import Req.Client.RetryDyn
+import Req.Client.Exchange
+import Req.Client.Backoff64
 /-!
 Driver lanes of C10.
 
 `c10run <variant> <clientOps> <reqOps> <conds> <hooks> <after> <script> <backoffObs>
         <c.cookies> <c.headers> <c.form> <c.query> <c.allowGet>
-        <method> <url> <cookies> <headers> <form> <ordered> <query> <multipart> <files> <body>`
-→ the whole trace of `Request.Do` (events, per-attempt wire requests, final result).
+        <method> <url> <cookies> <headers> <form> <ordered> <query> <multipart> <files> <body>
+        <resend> <ivx> <rawQuery> <pathParams> <c.pathParams> <c.baseURL> <c.scheme> <setCookies>`
+(`<url>` is a template: `a<origin>|<segs>` absolute, `s<authority>|<segs>` without scheme, `r|<segs>`
+relative; `<segs>` = `l<hex>` literal / `p<hex>` `{placeholder}`, comma separated; `<setCookies>` =
+per script position `-` or the `name:value` pairs (`name:` deletes) the response sets in the jar)
+→ the whole trace of `Request.Do` (events, per-attempt wire requests, final result), and of every
+further `Do` on the same `Request` (`resend`: per re-send the setter calls made before it).
+Conditions / response middleware `<pred>[~<edit>]`, hooks `C<k>`, `I<src>`, `X` and the interval
+function (`ivx`) may edit the retry option or cancel the context IN FLIGHT (`Req.RetryDyn`);
+an edit `…@<j>` acts only when the callback sees attempt number `j`.
 
 `c10backoff <guard> <min> <max> <attempt> <observed|p>` → `panic` / `ok` / `bad:<lo>:<hi>`.
 
 `c10policy <clientOps> <reqOps>` → the effective retry option.
 -/
 namespace Req.Driver.L.C10
-open Req.Proto Req.Retry Req.Attempt
+open Req.Proto Req.Retry Req.Attempt Req.RetryDyn
 
 /-! ### decoding -/
 
@@ -41,9 +52,9 @@ def decBool (s : String) : Option Bool :=
 
 def decVariant (s : String) : Option Variant :=
   match s.toList with
-  | [a, b, c, d, e] => do
+  | [a, b, c, d, e, g] => do
     let f (ch : Char) : Option Bool := if ch == '1' then some true else if ch == '0' then some false else none
-    pure ⟨← f a, ← f b, ← f c, ← f d, ← f e⟩
+    pure ⟨← f a, ← f b, ← f c, ← f d, ← f e, ← f g⟩
   | _ => none
 
 def dropS (s : String) (n : Nat) : String := String.ofList (s.toList.drop n)
@@ -99,7 +110,47 @@ def decPred (s : String) : Option Pred :=
   | "L" => rest.toNat?.map .attemptLt
   | _ => none
 
-def decPreds (s : String) : Option (List Pred) := (splitList "," s).mapM decPred
+/-- An in-flight edit of a stub: what, and (optionally) only at which attempt number. -/
+structure StubEdit where
+  edit : Edit
+  at? : Option Nat
+
+def StubEdit.eval (e : Option StubEdit) (attempt : Nat) : Edit :=
+  match e with
+  | none => .nop
+  | some e =>
+    match e.at? with
+    | none => e.edit
+    | some j => if attempt == j then e.edit else .nop
+
+/-- `c<k>` SetRetryCount, `i<src>` SetRetry…Interval, `x` cancel the context; `@<j>` suffix. -/
+def decStubEdit (s : String) : Option StubEdit :=
+  let (body, at?) : String × Option (Option Nat) :=
+    match s.splitOn "@" with
+    | [b] => (b, some none)
+    | [b, j] => (b, j.toNat?.map some)
+    | _ => (s, none)
+  match at? with
+  | none => none
+  | some at? =>
+    let rest := dropS body 1
+    match takeS body 1 with
+    | "c" => rest.toInt?.map fun k => ⟨⟨some k, none, false⟩, at?⟩
+    | "i" => (decInterval rest).map fun i => ⟨⟨none, some i, false⟩, at?⟩
+    | "x" => if rest == "" then some ⟨⟨none, none, true⟩, at?⟩ else none
+    | _ => none
+
+structure PredStub where
+  pred : Pred
+  edit : Option StubEdit
+
+def decPredStub (s : String) : Option PredStub :=
+  match s.splitOn "~" with
+  | [p] => (decPred p).map fun p => ⟨p, none⟩
+  | [p, e] => do pure ⟨← decPred p, some (← decStubEdit e)⟩
+  | _ => none
+
+def decPreds (s : String) : Option (List PredStub) := (splitList "," s).mapM decPredStub
 
 /-- What a hook stub does to the request. -/
 inductive HookAct
@@ -127,7 +178,19 @@ def decHook (s : String) : Option HookAct :=
   | "B" => (decodeHex rest).map .setBody
   | _ => none
 
-def decHooks (s : String) : Option (List HookAct) := (splitList "," s).mapM decHook
+structure HookStub where
+  act : HookAct
+  edit : Option StubEdit
+
+/-- `C<k>[@j]`, `I<src>[@j]`, `X[@j]`: the hook edits the retry option / cancels the context. -/
+def decHookStub (s : String) : Option HookStub :=
+  match takeS s 1 with
+  | "C" => (decStubEdit ("c" ++ dropS s 1)).map fun e => ⟨.noop, some e⟩
+  | "I" => (decStubEdit ("i" ++ dropS s 1)).map fun e => ⟨.noop, some e⟩
+  | "X" => (decStubEdit ("x" ++ dropS s 1)).map fun e => ⟨.noop, some e⟩
+  | _ => (decHook s).map fun a => ⟨a, none⟩
+
+def decHooks (s : String) : Option (List HookStub) := (splitList "," s).mapM decHookStub
 
 def decOutcome (s : String) : Option Outcome :=
   let rest := dropS s 1
@@ -167,7 +230,10 @@ def decBody (s : String) : Option BodySrc :=
   | "n" => if rest == "" then some .none else none
   | "b" => (decodeHex rest).map .bytes
   | "u" => (decodeHex rest).map .user
-  | "m" => (decodeHex rest).map .marshal
+  | "m" =>
+    match rest.splitOn ":" with
+    | [j, x] => do pure (.marshal (← decodeHex j) (← decodeHex x))
+    | _ => none
   | "r" => (decodeHex rest).map fun b => .reader b false
   | _ => none
 
@@ -210,8 +276,14 @@ def encBody : WBody → String
     "p" ++ encPairs (sortBy (fun e => e.1) fields) ++ "/" ++
       (if files.isEmpty then "-" else ";".intercalate (files.map encFilePart))
 
+/-- Go prints a `map[string][]string`: one entry per key, values in order of appearance. -/
+def groupMulti (m : Multi) : Multi :=
+  m.foldl (fun acc e =>
+    if acc.any (fun a => a.1 == e.1) then acc.map fun a => if a.1 == e.1 then (a.1, a.2 ++ e.2) else a
+    else acc ++ [e]) []
+
 def encWire (w : Wire) : String :=
-  "&".intercalate ["m=" ++ encodeHex w.method, "u=" ++ encodeHex w.url, "q=" ++ encMulti w.query,
+  "&".intercalate ["m=" ++ encodeHex w.method, "u=" ++ encodeHex w.url, "q=" ++ encMulti (groupMulti w.query),
     "h=" ++ encMulti w.headers, "c=" ++ encPairs w.cookies, "b=" ++ encBody w.body]
 
 def encErrKind : ErrKind → String
@@ -224,38 +296,48 @@ def encView : RespView → String
 def encObs (o : Obs) : String :=
   toString o.attempt ++ "/" ++ encView o.resp ++ "/" ++ (match o.err with | some k => encErrKind k | none => "-")
 
-/-- Duration the stub interval function `id` answers for `attempt`. -/
-def stubInterval (id attempt : Nat) : Nat := id * 1000 + attempt
+/-- Duration the stub interval function `id` answers for `attempt`; the stubs numbered 100 and
+up are "Retry-After style": they read the status of the response they are handed. -/
+def stubInterval (id attempt : Nat) (v : RespView) : Nat :=
+  id * 1000 + attempt +
+    (if id ≥ 100 then (match v with | .status c => 7 * c | _ => 0) else 0)
 
-/-- Events → tokens; `obs` is the list of observed durations of the backoff calls, consumed in order. -/
-def encEvents (showWire : Bool) : List (Event Wire) → List Int → List String
-  | [], _ => []
-  | e :: t, obs =>
+/-- Events → tokens; `obs` is the list of observed durations of the backoff calls, consumed in
+order; `pass` counts the loop passes begun so far over all sends (= the script position of the
+pass in progress), `sets` is what each script position's response stores in the cookie jar. -/
+def encEvents (showWire : Bool) (sets : List (List (Bytes × Bytes))) :
+    List (Event Wire) → List Int → Nat → List String × Nat
+  | [], _, pass => ([], pass)
+  | e :: t, obs, pass =>
+    let cont (tok : String) (obs : List Int) (pass : Nat) : List String × Nat :=
+      let r := encEvents showWire sets t obs pass
+      (tok :: r.1, r.2)
     match e with
-    | .before ra => ("B" ++ toString ra) :: encEvents showWire t obs
+    | .before ra => cont ("B" ++ toString ra) obs (pass + 1)
     | .wire ra w =>
-      ("W" ++ toString ra ++ (if showWire then "[" ++ encWire w ++ "]" else "")) :: encEvents showWire t obs
-    | .after i o => ("A" ++ toString i ++ "@" ++ encObs o) :: encEvents showWire t obs
-    | .cond id o r =>
-      ("C" ++ toString id ++ "@" ++ encObs o ++ "=" ++ (if r then "1" else "0")) :: encEvents showWire t obs
-    | .hook id o => ("H" ++ toString id ++ "@" ++ encObs o) :: encEvents showWire t obs
+      -- the pass in progress has index `pass - 1`
+      cont ("W" ++ toString ra ++
+        (if showWire then "[" ++ encWire (withJar w (jarBefore sets [] (pass - 1))) ++ "]" else "")) obs pass
+    | .after i o => cont ("A" ++ toString i ++ "@" ++ encObs o) obs pass
+    | .cond id o r => cont ("C" ++ toString id ++ "@" ++ encObs o ++ "=" ++ (if r then "1" else "0")) obs pass
+    | .hook id o => cont ("H" ++ toString id ++ "@" ++ encObs o) obs pass
     | .interval src a v =>
       -- every interval call was observed by the harness; the observation must be what the
       -- installed function answers (exactly, or — for the randomised backoff — within its bounds)
       let pre := "I" ++ toString a ++ "@" ++ encView v ++ "="
       match obs with
-      | [] => (pre ++ "missing-observation") :: encEvents showWire t []
+      | [] => cont (pre ++ "missing-observation") [] pass
       | d :: obs' =>
         let tok := match src with
           | .dflt => toString (100000000 : Nat)
-          | .fn id => toString (stubInterval id a)
+          | .fn id => toString (stubInterval id a v)
           | .fixed n => toString n
           | .backoff mn mx =>
             let h := Req.Backoff.half mn mx a
             -- the repaired function answers 0 when there is nothing to randomise
             let ok := if h ≤ 0 then d == 0 else decide (h ≤ d) && decide (d < 2 * h)
             if ok then toString d else "out-of-bounds:" ++ toString h
-        (pre ++ tok) :: encEvents showWire t obs'
+        cont (pre ++ tok) obs' pass
 
 def encFinal (f : Final) : String :=
   match f with
@@ -277,7 +359,13 @@ def encFinal (f : Final) : String :=
 
 def textPlain : Bytes := ofStr "text/plain; charset=utf-8"
 
-def mkCfg (cookies : List (Bytes × Bytes)) (headers form query : Multi) (allowGet : Bool) : ClientCfg :=
+def isXMLType (ct : Bytes) : Bool :=
+  -- `util.IsXMLType` on the harness's alphabet of content types
+  let s := String.ofList (ct.map fun b => Char.ofNat b.toNat)
+  (s.splitOn "xml").length > 1
+
+def mkCfg (cookies : List (Bytes × Bytes)) (headers form query : Multi) (allowGet : Bool)
+    (pathParams : List (Bytes × Bytes)) (baseURL scheme : Bytes) : ClientCfg :=
   { cookies, headers, form, query, allowGetPayload := allowGet,
     -- `http.DetectContentType` on the harness's alphabet (printable text; NUL only as padding)
     detect := fun b => if b.any (· == 0) then ofStr "application/octet-stream" else textPlain,
@@ -285,32 +373,97 @@ def mkCfg (cookies : List (Bytes × Bytes)) (headers form query : Multi) (allowG
     formCT := ofStr "application/x-www-form-urlencoded",
     jsonCT := ofStr "application/json; charset=utf-8",
     ctKey := ofStr "Content-Type",
-    mGet := ofStr "GET", mHead := ofStr "HEAD", mOptions := ofStr "OPTIONS" }
+    mGet := ofStr "GET", mHead := ofStr "HEAD", mOptions := ofStr "OPTIONS",
+    isXML := isXMLType, pathParams, baseURL,
+    schemePrefix := if scheme.isEmpty then [] else scheme ++ ofStr "://" }
 
-def mkPolicy (ro : Option RetryOption) (conds : List Pred) (hooks : List HookAct) (after : List Pred) :
+def decSeg (s : String) : Option Seg :=
+  let rest := dropS s 1
+  match takeS s 1 with
+  | "l" => (decodeHex rest).map .lit
+  | "p" => (decodeHex rest).map .param
+  | _ => none
+
+def decUrlT (s : String) : Option (UrlHead × List Seg) :=
+  match s.splitOn "|" with
+  | [h, segs] => do
+    let segs ← (splitList "," segs).mapM decSeg
+    let rest := dropS h 1
+    match takeS h 1 with
+    | "a" => pure (.abs (← decodeHex rest), segs)
+    | "s" => pure (.noScheme (← decodeHex rest), segs)
+    | "r" => if rest == "" then pure (.rel, segs) else none
+    | _ => none
+  | _ => none
+
+def mkPolicy (ro : Option RetryOption) (conds : List PredStub) (hooks : List HookStub) (after : List PredStub) :
     Option (Policy ReqState) :=
   match ro with
-  | none => some ⟨false, 0, [], [], after.map Pred.eval, .dflt⟩
+  | none => some ⟨false, 0, [], [], after.map (·.pred.eval), .dflt⟩
   | some o => do
-    let cs ← o.conds.mapM fun id => (conds[id]?).map fun p => (id, p.eval)
-    let hs ← o.hooks.mapM fun id => (hooks[id]?).map fun a => (id, a.apply)
-    pure ⟨true, o.maxRetries, cs, hs, after.map Pred.eval, o.interval⟩
+    let cs ← o.conds.mapM fun id => (conds[id]?).map fun p => (id, p.pred.eval)
+    let hs ← o.hooks.mapM fun id => (hooks[id]?).map fun a => (id, a.act.apply)
+    pure ⟨true, o.maxRetries, cs, hs, after.map (·.pred.eval), o.interval⟩
+
+/-- The behaviour table of the in-flight edits. -/
+def mkEdits (conds : List PredStub) (hooks : List HookStub) (after : List PredStub) (ivx : Option Nat) : Edits :=
+  { after := fun i o => StubEdit.eval ((after[i]?).bind (·.edit)) o.attempt,
+    cond := fun id o => StubEdit.eval ((conds[id]?).bind (·.edit)) o.attempt,
+    hook := fun id o => StubEdit.eval ((hooks[id]?).bind (·.edit)) o.attempt,
+    ivl := fun a _ => ⟨none, none, ivx == some a⟩ }
+
+/-- The setter calls before a re-send (`n=`, `i=` only). -/
+def decResendOps (s : String) : Option (List Edit) :=
+  if s == "_" then some [] else
+  (s.splitOn ",").mapM fun t =>
+    match decSetter t with
+    | some (.count n) => some ⟨some n, none, false⟩
+    | some (.interval i) => some ⟨none, some i, false⟩
+    | _ => none
+
+def decResend (s : String) : Option (List (List Edit)) := (splitList ";" s).mapM decResendOps
+
+def countIntervals : List (Event Wire) → Nat
+  | [] => 0
+  | .interval _ _ _ :: t => countIntervals t + 1
+  | _ :: t => countIntervals t
+
+def encSends (showWire : Bool) (sets : List (List (Bytes × Bytes))) :
+    List (List (Event Wire) × Final) → List Int → Nat → List String
+  | [], _, _ => []
+  | (ev, fin) :: more, obs, pass =>
+    let r := encEvents showWire sets ev obs pass
+    r.1 ++ [encFinal fin] ++ encSends showWire sets more (obs.drop (countIntervals ev)) r.2
+
+def decSets (s : String) : Option (List (List (Bytes × Bytes))) :=
+  (splitList "," s).mapM fun t => if t == "-" then some [] else (t.splitOn "+").mapM decPair
 
 def laneRun (showWire : Bool) : List String → String
   | [v, cops, rops, conds, hooks, after, script, bobs,
      cck, chd, cfm, cq, cag,
-     method, url, ck, hd, fm, ord, q, mp, files, body] =>
+     method, url, ck, hd, fm, ord, q, mp, files, body, resend, ivx,
+     rawq, pp, cpp, cbase, cscheme, sets] =>
     let r : Option String := do
       let v ← decVariant v
       let ro := effective (← decSetters cops) (← decSetters rops)
-      let p ← mkPolicy ro (← decPreds conds) (← decHooks hooks) (← decPreds after)
+      let conds ← decPreds conds
+      let hooks ← decHooks hooks
+      let after ← decPreds after
+      let p ← mkPolicy ro conds hooks after
+      let ivx ← if ivx == "-" then some none else ivx.toNat?.map some
+      let ed := mkEdits conds hooks after ivx
       let script ← decScript script
+      let resend ← decResend resend
       let bobs ← (splitList "," bobs).mapM String.toInt?
       let cfg := mkCfg (← decPairs cck) (← decMulti chd) (← decMulti cfm) (← decMulti cq) (← decBool cag)
-      let st : ReqState := ⟨← decodeHex method, ← decodeHex url, ← decPairs ck, ← decMulti hd, ← decMulti fm,
+        (← decPairs cpp) (← decodeHex cbase) (← decodeHex cscheme)
+      let ut ← decUrlT url
+      let st : ReqState := ⟨← decodeHex method, ut.1, ut.2, ← decPairs rawq, ← decPairs pp,
+        ← decPairs ck, ← decMulti hd, ← decMulti fm,
         ← decPairs ord, ← decMulti q, ← decBool mp, ← decFiles files, ← decBody body⟩
-      let tr := run v p (mw v cfg) (unreplayable v st) script st
-      pure (" ".intercalate (encEvents showWire tr.events bobs ++ [encFinal tr.final]))
+      let sets ← decSets sets
+      let sends := dsends v p ed (mw v cfg) (unreplayable v) resend script 0 st (dynOf p)
+      pure (" ".intercalate (encSends showWire sets sends bobs 0))
     r.getD "bad-op"
   | _ => "bad-op"
 
@@ -348,7 +501,85 @@ def lanePolicy : List String → String
     r.getD "bad-op"
   | _ => "bad-op"
 
+/-! ### `c10inner <honest> <proto> <N|-2> <method> <idem> <digest> <kind> <script> <reusedObs>` -/
+
+section inner
+open Req.Exchange
+
+def decCut (s : String) : Option Cut :=
+  match s with
+  | "h" => some .headers | "p" => some .half | "f" => some .full | _ => none
+
+def decAct (s : String) : Option Act :=
+  let rest := dropS s 2
+  match takeS s 2 with
+  | "ok" => rest.toNat?.map .answer
+  | "rd" => rest.toNat?.map .redirect
+  | "dg" => if rest == "" then some .challenge else none
+  | "ga" => (decCut (dropS rest 1)).map .goAway
+  | "rs" => (decCut (dropS rest 1)).map .refused
+  | "cl" => (decCut (dropS rest 1)).map .hangUp
+  | _ => none
+
+def decKind (s : String) : Option BodyKind :=
+  match s with
+  | "n" => some .none
+  | "b" | "s" | "u" | "m" | "f" | "x" => some .fresh
+  | "r" | "c" => some .once
+  | "p" => some .pipe
+  | _ => none
+
+def encSent : Sent → String
+  | .none => "none" | .full => "full" | .part => "part" | .drained => "drained"
+
+def laneInner : List String → String
+  | [honest, proto, n, method, idem, digest, kind, script, obs] =>
+    let r : Option String := do
+      let honest ← decBool honest
+      let proto ← if proto == "h1" then some Proto.h1 else if proto == "h2" then some Proto.h2 else none
+      let retries ← if n == "-2" then some none else n.toInt?.map some
+      let idem ← decBool idem
+      let idempotent := idem || method == "GET" || method == "HEAD" || method == "OPTIONS" || method == "TRACE"
+      let cfg : Cfg := ⟨proto, retries, idempotent, ← decBool digest, ← decKind kind, honest⟩
+      let acts ← (splitList "," script).mapM decAct
+      let reused ← (splitList "," obs).mapM decBool
+      -- the peer answers 200 once its script has run out
+      let len := max acts.length reused.length + 2
+      let sc := (List.range len).map fun i => (acts.getD i (.answer 200), reused.getD i false)
+      let res := run cfg sc
+      let exs := res.1.map fun e =>
+        "E" ++ toString e.attempt ++ ":" ++ method ++ ":" ++ encSent e.sent ++ (if e.auth then "+auth" else "")
+      let fin := match res.2 with
+        | .status c ra => "F" ++ toString c ++ "@" ++ toString ra
+        | .err ra => "Ferr@" ++ toString ra
+        | .refused => "Frefused"
+        | .exhausted => "Fexhausted"
+      pure (" ".intercalate (exs ++ [fin]))
+    r.getD "bad-op"
+  | _ => "bad-op"
+
+end inner
+
+/-- `c10half <min> <max> <attempt>` → `halfTemp` of the exact float model;
+`c10backoff64 <min> <max> <attempt> <jitter>` → the interval for that value of `rand.Int63n`. -/
+def laneHalf64 : List String → String
+  | [mn, mx, a] =>
+    let r : Option String := do
+      pure (toString (Req.Backoff64.half (← mn.toInt?) (← mx.toInt?) (← a.toNat?)))
+    r.getD "bad-op"
+  | _ => "bad-op"
+
+def laneBackoff64 : List String → String
+  | [mn, mx, a, j] =>
+    let r : Option String := do
+      pure ("ok:" ++ toString (Req.Backoff64.interval (← mn.toInt?) (← mx.toInt?) (← a.toNat?) (← j.toNat?)))
+    r.getD "bad-op"
+  | _ => "bad-op"
+
 def lanes : List (String × (List String → String)) := [
+  ("c10half", laneHalf64),
+  ("c10backoff64", laneBackoff64),
+  ("c10inner", laneInner),
   ("c10run", laneRun true),
   -- same model, the per-attempt wire requests not printed (the e2e lane compares raw captures itself)
   ("c10trace", laneRun false),
